@@ -210,7 +210,8 @@ pub mod parser {
     /// a = {fill: red}
     /// b = {stroke: blue}
     fn css_style_list<'a>() -> Parser<'a, char, Vec<(String, String)>> {
-        list(class_and_style(), new_line())
+        // blanks at the end of an entry's line belong to the separator
+        list(class_and_style(), space() - new_line())
     }
 
     /// a = {fill: red}
